@@ -99,13 +99,17 @@ impl Fs
 pub struct VSystem { pub fs : Arc<Mutex<Fs>>, pub dir : String }
 
 #[derive(Debug)]
-pub struct VFile { fs : Arc<Mutex<Fs>>, path : String, snapshot : Arc<Vec<u8>>, pos : usize }
+pub struct VFile { fs : Arc<Mutex<Fs>>, path : String, snapshot : Arc<Vec<u8>>, pos : usize, nreads : usize }
 
 impl io::Read for VFile
 {
     fn read(&mut self, buf : &mut [u8]) -> io::Result<usize>
     {
-        let n = std::cmp::min(buf.len(), self.snapshot.len() - self.pos);
+        /* short reads (allowed by std::io::Read; network and FUSE file systems produce them): the 1st and 3rd read of a file
+           return at most 3 and 7 bytes, the others whatever fits */
+        let cap = match self.nreads { 0 => 3, 2 => 7, _ => usize::MAX };
+        self.nreads += 1;
+        let n = std::cmp::min(std::cmp::min(buf.len(), cap), self.snapshot.len() - self.pos);
         buf[..n].copy_from_slice(&self.snapshot[self.pos..self.pos + n]);
         self.pos += n;
         Ok(n)
@@ -236,7 +240,7 @@ impl System for VSystem
         let fs = self.fs.lock().unwrap();
         match fs.files.get(path)
         {
-            Some(file) => Ok(VFile{fs : self.fs.clone(), path : path.to_string(), snapshot : file.data.clone(), pos : 0}),
+            Some(file) => Ok(VFile{fs : self.fs.clone(), path : path.to_string(), snapshot : file.data.clone(), pos : 0, nreads : 0}),
             None => Err(SystemError::NotFound),
         }
     }
@@ -259,7 +263,7 @@ impl System for VSystem
         fs.touch(path);
         fs.files.insert(path.to_string(), VFileData{data : Arc::new(vec![]), mtime : now, exec : exec});
         fs.mutated(format!("create {}", path));
-        Ok(VFile{fs : self.fs.clone(), path : path.to_string(), snapshot : Arc::new(vec![]), pos : 0})
+        Ok(VFile{fs : self.fs.clone(), path : path.to_string(), snapshot : Arc::new(vec![]), pos : 0, nreads : 0})
     }
 
     fn create_dir(&mut self, path : &str) -> Result<(), SystemError>
@@ -386,7 +390,9 @@ impl System for VSystem
                 self.fs.lock().unwrap().in_command = None;
                 continue;
             }
-            if cmd.kind == "fail" || seen.iter().any(|c| c == "MISSING")
+            /* like a shell redirection into a directory that is not there: the command fails before it writes anything */
+            let nodir = { let fs = self.fs.lock().unwrap(); cmd.tg.iter().any(|p| !fs.dirs.contains(&parent(p))) };
+            if cmd.kind == "fail" || nodir || seen.iter().any(|c| c == "MISSING")
             {
                 out.push(Ok(bad())); all_ok = false;
                 self.fs.lock().unwrap().in_command = None;
